@@ -642,6 +642,20 @@ for kind, loops in (("UINT", False), ("NEGINT", False), ("FLOAT_CTRL", False), (
       must_exist=[r"cbor_decref\.postcondition\.4"] + ([r"cbor_decref\.loop_invariant_step\.\d+"] if loops else []),
       min_covers=2, cost=60, timeout=900, object_bits=10)
 
+# cbor_build_bytestring / cbor_build_stringn bodies (used by cbor_copy and by clients): fresh node + fresh buffer of exactly
+# `length` bytes holding the same bytes (ghost index), clean failure
+BUILDSTR_PROPS = {"C11": FUNC, "C06": FUNC + FRAME, "C13": FUNC + FRAME, "C01": SAFETY, "C20": SAFETY, "C04": FUNC}
+P(name="op_build_bytestring", props=dict(BUILDSTR_PROPS), lib=ITEMLIB, stubs=ITEM_STUBS + ["stubs/copy_ghost.c"],
+  contracts=OPS_CONTRACTS + ["contracts/copy.h"], harness="harness/ops.c",
+  defines=["H_BUILD_STR", "CALL=cbor_build_bytestring(src,in_len)"], enforce="cbor_build_bytestring",
+  replace=["cbor_new_definite_bytestring"],
+  must_exist=[r"cbor_build_bytestring\.postcondition\.4"], min_covers=3, cost=20)
+P(name="op_build_stringn", props=dict(BUILDSTR_PROPS, C16=[]), lib=ITEMLIB, stubs=ITEM_STUBS + ["stubs/copy_ghost.c"],
+  contracts=OPS_CONTRACTS + ["contracts/copy.h"], harness="harness/ops.c",
+  defines=["H_BUILD_STR", "CALL=cbor_build_stringn((const char*)src,in_len)"], enforce="cbor_build_stringn",
+  replace=["cbor_new_definite_string", "_cbor_unicode_codepoint_count/_cbor_unicode_codepoint_count__plain"],
+  must_exist=[r"cbor_build_stringn\.postcondition\.4"], min_covers=3, cost=20)
+
 # ------------------------------------------------------------------------------------------------
 # L1 decoding stack with a symbolic nesting limit (C19)
 STACKLIB = ["cbor/internal/stack.c"]
@@ -759,6 +773,28 @@ P(name="load_empty_input", props={"C05": FUNC + FRAME, "C01": SAFETY, "C13": []}
   contracts=LOAD_CONTRACTS, harness="harness/load.c", defines=["H_LOAD_EMPTY"], enforce="cbor_load", unwind=1,
   replay="load", must_exist=[r"cbor_load\.postcondition\.3"], min_covers=1, cost=10, object_bits=10)
 
+# cbor_load's loops: goto-instrument cannot take a loop contract on cbor_load (memory), so the loop body, the exit, the
+# error entry, the clean-up loop body and the error exit are verified as VERBATIM regions wrapped mechanically into
+# functions on every run (vlib/extract.py; what that drops: the two loop constructs = meta-argument A2, and the
+# prologue = proofs load_empty_input / load_first_head on the real function).
+LOADP_CONTRACTS = LOAD_CONTRACTS + ["contracts/load_parts.h"]
+LOADP_PROPS = {"C05": FUNC + FRAME, "C01": SAFETY, "C02": FUNC, "C14": FUNC, "C19": FUNC, "C06": FUNC + FRAME, "C04": FUNC + FRAME, "C13": []}
+KPP = ("K'' = contract cbor_stream_decode__iter (contracts/load_parts.h): the C08 contract composed with the builder "
+       "callback transitions, as seen by cbor_load; each half is proved (stream_decode_contract, cb_*, append_*), "
+       "their composition and the content of cbor_load's static callback table are assumed")
+for _n, _def, _enf, _rep, _must, _cov in (
+        ("load_prologue", "H_LOAD_PROLOGUE", "cbor_load__prologue", ["_cbor_stack_init"], 3, 2),
+        ("load_iteration", "H_LOAD_ITER", "cbor_load__iteration", ["cbor_stream_decode/cbor_stream_decode__iter"], 11, 8),
+        ("load_exit", "H_LOAD_EXIT", "cbor_load__exit", [], 1, 1),
+        ("load_error_entry", "H_LOAD_ERR_ENTRY", "cbor_load__error_entry", [], 1, 1),
+        ("load_cleanup_iteration", "H_LOAD_CLEANUP", "cbor_load__cleanup_iteration",
+         ["cbor_decref/cbor_decref__cleanup", "_cbor_stack_pop"], 3, 2),   # CaDiCaL: 40 s, MiniSat: 200 s
+        ("load_error_exit", "H_LOAD_ERR_EXIT", "cbor_load__error_exit", [], 1, 1)):
+    P(name=_n, props=dict(LOADP_PROPS), lib=LOADLIB, stubs=COPY_STUBS + ["stubs/builder_ghost.c"], contracts=LOADP_CONTRACTS,
+      harness="harness/load_parts.c", defines=[_def], extract="cbor_load_parts", enforce=_enf, replace=_rep, replay="load_oracle",
+      assumed=[KPP] if _rep and "iter" in _rep[0] else [],
+      must_exist=[r"%s\.postcondition\.%d" % (_enf, _must)], min_covers=_cov, cost=20, object_bits=10)
+
 # ------------------------------------------------------------------------------------------------
 # Which proofs a property's check runs.  A proof can discharge obligations relevant to many properties, but
 # running every proof for the broad properties (C01, C13, C17) would make their quick tier hours long; each of
@@ -805,7 +841,7 @@ for top in ("EMPTY", "DEF_ARRAY", "INDEF_ARRAY", "MAP", "TAG", "BYTESTRING", "ST
       replace=["_cbor_builder_append__child", "_cbor_safe_to_multiply", "cbor_tag_set_item",
                "cbor_decref/cbor_decref__owned", "_cbor_stack_pop"],
       must_exist=[r"_cbor_builder_append\.postcondition\.5"] if top not in ("DEF_ARRAY", "INDEF_ARRAY", "MAP") else [r"_cbor_stack_pop\.precondition\.\d+"],
-      min_covers=1, cost=120, timeout=900, object_bits=10, mem_gb=20,
+      min_covers=1, cost=120, timeout=900, object_bits=10, mem_gb=20, replay="load_oracle",
       **(dict(kind="bounded", bound=MAP_BOUND) if bounded else {}))
 
 # builder callbacks: one push-down-automaton transition per head kind; any stack depth, any kind of open item
@@ -824,7 +860,7 @@ def CB(name, call, kind, defs, covers=2, **kw):
       defines=["H_CALLBACK", "TOP_SIMPLE", "CALL=" + call, kind] + (defs if any(d.startswith("CB_MAY_FAIL_ON_LENGTH") for d in defs) else defs + ["CB_MAY_FAIL_ON_LENGTH=0"]),
       enforce=None, also_verified=["cbor_builder_" + name + "_callback"], replace=CB_REPLACE,
       must_exist=[r"_cbor_builder_append.*\.precondition\.\d+" if kind == "CB_LEAF" else r"_cbor_stack_push.*\.precondition\.\d+"],
-      min_covers=covers, cost=60, timeout=900, object_bits=10, **kw)
+      min_covers=covers, cost=60, timeout=900, object_bits=10, **dict(dict(replay="load_oracle"), **kw))
 
 
 for w, wc in (("8", 0), ("16", 1), ("32", 2), ("64", 3)):
@@ -907,6 +943,18 @@ for nm, d, fn in (("cont_map_add_key_lemma", "H_MAP_ADD_KEY", "_cbor_map_add_key
 # behind the loop), so both loops are unwound: BOUNDED stand-in - runs of at most 3 heads, failing at depth <= 3.  Because
 # K' hands back an arbitrary state satisfying its postcondition, iterations 2 and 3 start from arbitrary invariant states.
 # The streaming decoder with the builder table is the ASSUMED contract K' (contracts/load.h).
+# base case of the loop rule on the REAL function: prologue + the first two heads + exit / clean-up (bounded)
+# (does not finish in 15 min on MiniSat: parked; the prologue is covered without bound by load_prologue on the extracted text)
+P(tier="experimental", name="load_first_heads", kind="bounded", bound="main loop of cbor_load unwound twice (first two heads of every input); stack depth <= 2 when a run fails",
+  props={"C05": FUNC + FRAME, "C14": FUNC, "C01": SAFETY, "C02": FUNC, "C19": [], "C04": []},
+  lib=LOADLIB, stubs=BUILD_STUBS, contracts=BUILD_CONTRACTS + ["contracts/load.h"], harness="harness/load.c",
+  defines=["H_LOAD_LOOP", "VERIF_LOAD_DEPTH_BOUND=2"], enforce="cbor_load",
+  replace=["cbor_stream_decode/cbor_stream_decode__load", "cbor_decref/cbor_decref__owned", "_cbor_stack_pop/_cbor_stack_pop__hered", "_cbor_stack_init"],
+  cbmc_flags=[f for f in __import__("vlib.driver", fromlist=["STD_CHECKS"]).STD_CHECKS if f != "--unwinding-assertions"] + ["--no-unwinding-assertions"],
+  unwindset="cbor_load_wrapped_for_contract_checking.0:2,cbor_load_wrapped_for_contract_checking.1:3",
+  must_exist=[r"cbor_load\.postcondition\.4"], min_covers=6, cost=120, timeout=900, object_bits=10,
+  assumed=["K' = contract cbor_stream_decode__load (contracts/load.h): composition of the C08 contract with the builder callback "
+           "transitions, and A9 (cbor_load's static table holds the builder callbacks); not machine-checked"])
 P(tier="experimental", name="load_loops_bounded", kind="bounded", bound="at most 3 item heads per run; stack depth <= 3 when a run fails",
   props={"C05": FUNC + FRAME, "C14": FUNC, "C01": SAFETY, "C02": FUNC, "C19": [], "C04": []},
   lib=LOADLIB, stubs=BUILD_STUBS, contracts=BUILD_CONTRACTS + ["contracts/load.h"], harness="harness/load.c",
